@@ -22,7 +22,8 @@ WORKERS = 14
 CASE_TIMEOUT = 420
 QUIESCENCE_SCOPE = "process"   # helpers are polling feeders only
 QUIESCENCE_AFTER = 60.0
-REQUIRED_OBS = ["passes", "gated_passes", "examples_checked", "process_record_passes", "overlapping_pass_groups"]
+REQUIRED_OBS = ["passes", "gated_passes", "examples_checked", "process_record_passes", "overlapping_pass_groups",
+                "reiterated_pipeline_passes"]
 RULE = ("datasets from generated histories (1..3 splits, 1..many shards, short last shards, nested lists, "
         "multi-writer) x interface x shuffle in {0,1,2,3,N-1,N,N+1,10N} x file_parallelism in {1,2,S-1,S,S+1,2S+3} x "
         "schedule (FIFO-gate policy+seed, or delay seed). Distinct = (format, geometry class, interface, shuffle class, "
@@ -140,6 +141,31 @@ def run_case(case: dict) -> dict:
                                        "msg": f"{fmt} three interleaved passes over {chosen}: pass over {split} missing "
                                               f"{list((want - Counter(outcome)).elements())[:4]} unexpected "
                                               f"{list((Counter(outcome) - want).elements())[:4]}"})
+        # ---- a re-iterable pipeline object (the tf.data.Dataset returned by as_tfdataset) is iterated several
+        # times, as a training loop does with its validation data: full pass, abandoned pass, full pass
+        if "tfds" in ifaces:
+            split = rng.choice(splits)
+            want = _iter.expected_counter(model, split)
+            shuffle = rng.choice([0, 3, 3])
+            par = rng.choice([1, 2, 3])
+            label = f"{fmt} as_tfdataset split={split} shuffle={shuffle} file_parallelism={par} repeat=False"
+            try:
+                pipeline = dataset.as_tfdataset(split, batch_size=0, shuffle=shuffle, repeat=False, file_parallelism=par)
+                for round_no in range(3):
+                    iterator = iter(pipeline.as_numpy_iterator())
+                    if round_no == 1:
+                        list(itertools.islice(iterator, max(1, sum(want.values()) // 2)))    # abandoned mid-way
+                        del iterator
+                        continue
+                    got = Counter(int(ex["id"]) for ex in iterator)
+                    obs["reiterated_pipeline_passes"] += 1
+                    if got != want:
+                        violations.append({"key": f"reiterated-pipeline-pass-differs/tfds{'-shuffled' if shuffle else ''}",
+                                           "msg": f"{label}: iteration {round_no + 1} of the same pipeline object delivered "
+                                                  f"{sum(got.values())} of {sum(want.values())} examples (missing "
+                                                  f"{list((want - got).elements())[:4]}, unexpected {list((got - want).elements())[:4]})"})
+            except Exception as exc:  # pylint: disable=broad-exception-caught
+                violations.append({"key": "reiterated-pipeline-raised/tfds", "msg": f"{label}: {type(exc).__name__}: {str(exc)[:300]}"})
         # ---- two threads share ONE Dataset object and start a pass over the same split at the same moment
         import threading
         from sedpack.io import Dataset
